@@ -131,7 +131,7 @@ PROPS = {
         "level": "model_checking", "msg_filter": "^C10", "harness_msg_filter": {"^VH_C10_(stuck_writer|bigbuf)": "."}, "engine_only_kinds": ["assert", "deadlock", "panic", "livelock"], "witness_replays": {"quick": 1, "thorough": 1},
         "bounds": {"quick": "real diode.Writer in waiter and poller mode; (producers x writes) in {1x2, 2x1} x ring size {1,2} x start {fresh = as NewManyToOne leaves it (first lap), steady = arbitrary symbolic position >= size and < 2^62}; both phases (quiesce / Close); preemption bound 2 with sleep-set reduction; a wrapped writer that blocks forever with 2 producers x 2 writes",
                    "thorough": "adds 1x3, 2x2 and ring size 3, preemption bound 3",
-                   "assertions": "every delivered buffer equals the argument of exactly one Write, none twice, per-producer order, alerts positive and their sum <= ring positions claimed, Write returns 2,nil; producers finish although the wrapped writer never returns"},
+                   "assertions": "every delivered buffer equals the argument of exactly one Write, none twice, per-producer order, alerts positive and their sum <= ring positions claimed, Write returns 2,nil; producers finish although the wrapped writer never returns; no thread spins for good (more than spin-limit instructions without a visible operation, or spin-limit/4 instructions of read-only visible operations while every other thread is finished or blocked on a false condition)"},
         "assumptions": COMMON_ASSUME + ["threads are interleaved at visible operations only (sync/atomic, Mutex, Cond, channel, WaitGroup, time.Sleep, go); code between two visible operations of a thread is assumed not to race with other threads", "package context's own synchronisation is trusted: its operations are atomic steps", "sync.Pool (bufPool) is a LIFO free list; time.Sleep = 'time passes when nothing else can run'", "schedule counterexamples are reported from the engine's exploration (kinds assert/deadlock are engine-only for these properties: the native replay cannot force a schedule without instrumenting the diode sources)", "fewer than 2^64 ring positions are claimed in the life of a diode"],
     },
     "C11": {
